@@ -138,6 +138,74 @@ def kind_table(ctx, idx, rule):
     ctx.floor(rule, "(class, wrong kind) pairs", n, 40)
 
 
+# (class, raw kind) pairs of the documented domains on which no cleaner has a reason to raise: the value is of the declared
+# kind already.  (Paths, results and data-type objects are left out: their cleaners look the value up and may refuse it.)
+MUST_ACCEPT = {
+    "BooleanParameter": ["bool"],
+    "DataParameter": ["ndarray"],
+    "ListParameter": ["list0", "list1"],
+    "NumberParameter": ["int", "float", "bool", "number"],
+    "StringParameter": ["str"],
+    "TupleParameter": ["dict0", "dict1"],
+}
+
+
+def accepts_domain(ctx, idx, rule, only=None, consequence=""):
+    """a value of the declared kind is accepted on every path: no raise of the cleaner's own is reachable for it"""
+    S = summaries(idx)
+    n = 0
+    for cname, kinds in sorted(MUST_ACCEPT.items()):
+        if only is not None and cname not in only:
+            continue
+        if cname not in S:
+            raise AnalysisError("parameter class %s vanished" % cname)
+        ci = idx.cls("mpilot.params", cname)
+        fi = idx.find_method(ci, "clean")
+        bad = []
+        for k in kinds:
+            rec = S[cname].get(k)
+            if rec is None:
+                continue
+            n += 1
+            if rec["own_raises"]:
+                bad.append((k, sorted(q.split(".")[-1] for q in rec["own_raises"]), min(rec["raise_lines"].values()) if rec["raise_lines"] else fi.node.lineno))
+        con = "%s::%s.clean::accepts-its-domain" % (K.rel(fi), cname)
+        if bad:
+            ctx.violate(rule, con, K.rel(fi), bad[0][2], "%s.clean can refuse a %s (%s) although that is the declared kind: the refusal depends on something else about the value (its element type, its size, its content)%s" % (
+                cname, "/".join(kind_text(k) for k, _e, _l in bad), "/".join(bad[0][1]), consequence))
+        else:
+            ctx.hold(rule, con, K.rel(fi), fi.node.lineno, "a %s is accepted on every path" % "/".join(kind_text(k) for k in kinds))
+    return n
+
+
+def no_working_dir_means_none(ctx, idx, rule, consequence=""):
+    """PathParameter.clean refuses a relative path exactly when there is NO working directory (None).  The empty string is a
+    working directory - the current one: it is what os.path.dirname('model.mpt') gives the command-line tool - so the test
+    that decides InvalidRelativePath is `working_dir is None`, not the truth value of working_dir."""
+    pp = idx.cls("mpilot.params", "PathParameter").methods.get("clean")
+    if pp is None:
+        raise AnalysisError("%s: PathParameter.clean vanished" % rule)
+    c = K.cfg_of(idx, pp)
+    rz = [n for n in c.find("raise") if (n.meta.get("qual") or "").endswith("InvalidRelativePath")]
+    tests = [t for t in c.find("test") if "working_dir" in K.src(K.expand(pp, t.ast)) and any(r in c.reachable([t]) for r in rz)]
+    con = "%s::no-working-directory-is-None" % pp.key
+    if not rz or not tests:
+        raise AnalysisError("%s: no test of working_dir decides InvalidRelativePath in PathParameter.clean" % rule)
+    bad = []
+    for t in tests:
+        e = K.expand(pp, t.ast)
+        while isinstance(e, ast.UnaryOp) and isinstance(e.op, ast.Not):
+            e = e.operand
+        if isinstance(e, ast.Compare) and len(e.ops) == 1 and isinstance(e.ops[0], (ast.Is, ast.IsNot, ast.Eq, ast.NotEq)) and isinstance(e.comparators[0], ast.Constant) and e.comparators[0].value is None:
+            continue
+        if isinstance(e, (ast.Attribute, ast.Name)) or (isinstance(e, ast.Call) and K.src(e.func) in ("bool", "len")):
+            bad.append(t)
+    if bad:
+        ctx.violate(rule, con, K.rel(pp), bad[0].line, "`%s` decides InvalidRelativePath by the truth value of the working directory: the empty string - the directory the command-line tool passes for a command file in the current directory - counts as 'no working directory', so a well-formed model with relative file names is rejected%s" % (bad[0].text()[:50], consequence))
+    else:
+        ctx.hold(rule, con, K.rel(pp), tests[0].line, "InvalidRelativePath is decided by `working_dir is None`")
+
+
 def run(ctx, idx):
     ctx.assume("operation table of Engine D: int()/float() raise ValueError on str and TypeError on containers/objects; os.path functions raise TypeError on non-str; dict lookup raises KeyError, and TypeError for unhashable keys; six.text_type is total")
     ctx.assume("raw kinds are those the parser or API can deliver: int, float, bool, str, (non-)empty list/tuple/dict, command; plus type for DataType and ndarray for Data (their cleaned kinds)")
@@ -149,6 +217,8 @@ def run(ctx, idx):
     S = total(ctx, idx, "C20.a")
     ctx.rule("C20.f", "Kind table: each parameter class rejects the raw kinds outside its documented domain with ParameterNotValid (never coerces them).")
     kind_table(ctx, idx, "C20.f")
+    ctx.rule("C20.g", "The declared kind is accepted: for a value that already is of the class's documented kind (a number for Number, an array for Data, a list for List, ...) no raise of the cleaner is reachable - acceptance depends on the kind, not on the element type, size or content.")
+    ctx.floor("C20.g", "(class, declared kind) pairs", accepts_domain(ctx, idx, "C20.g"), 10)
     A = K.anchors(idx)
     for cname, per in sorted(S.items()):
         ci = idx.cls("mpilot.params", cname)
@@ -307,6 +377,7 @@ def run(ctx, idx):
             ok = False
             why = "the joined path is not what the method goes on to check and return"
     ctx.ob("C20.e", con, K.rel(pp), pp.node.lineno, ok, why)
+    no_working_dir_means_none(ctx, idx, "C20.e")
     ex = c.find("call", lambda n: n.meta.get("qual") == "os.path.exists")
     rz = [n for n in c.find("raise") if (n.meta.get("qual") or "").endswith("PathDoesNotExist")]
     ok = bool(ex) and bool(rz) and any("must_exist" in t.text() for t in c.find("test") if any(c.dominates(t, r) for r in rz))
@@ -322,6 +393,22 @@ def run(ctx, idx):
             if isinstance(v_, ast.Subscript) and K.src(v_.value).replace(" ", "") == "%s.valid_types" % K.self_name(dt) and (val in K.names_in(K.expand(dt, v_.slice)) or val in K.dep_names(dt, v_.slice)):
                 ok = True
     ctx.ob("C20.e", "%s::name-to-type" % dt.key, K.rel(dt), dt.node.lineno, ok, "names map through valid_types[value]" if ok else "a data-type name is not mapped through valid_types[value]")
+    # an already-clean value is returned as it is only when it is one of the table's own types: membership in valid_types.values()
+    # (or an identity / equality scan of them), not merely "some class"
+    cdt = K.cfg_of(idx, dt)
+    sn_dt = K.self_name(dt)
+    id_rets = [r for r in cdt.find("return") if isinstance(r.ast.value, ast.Name) and r.ast.value.id == val]
+    for i_, r in enumerate(id_rets):
+        guards = [t for t in cdt.find("test") if cdt.dominates(t, r) and r in cdt.reachable([m for m, l in t.succ if l == "true"]) and r not in cdt.reachable([m for m, l in t.succ if l == "false"])]
+        member = [t for t in guards if ("%s.valid_types" % sn_dt) in K.src(K.expand(dt, t.ast)).replace(" ", "") and (
+            (isinstance(t.ast, ast.Compare) and any(isinstance(o_, ast.In) for o_ in t.ast.ops)) or (isinstance(t.ast, ast.Call) and K.src(t.ast.func) == "any"))]
+        con_ = "%s::clean-types-are-table-types@%d" % (dt.key, i_ + 1)
+        if member:
+            ctx.hold("C20.e", con_, K.rel(dt), r.line, "a type object is passed through only when the table holds it (`%s`)" % member[0].text()[:50])
+        elif guards:
+            ctx.violate("C20.e", con_, K.rel(dt), r.line, "the value is returned as it is under `%s`, which does not look it up among valid_types' values: any class (str, bool, list, a numpy type the table does not hold) passes as an already-clean data type instead of being refused with ParameterNotValid" % guards[-1].text()[:50])
+        else:
+            ctx.violate("C20.e", con_, K.rel(dt), r.line, "the value is returned as it is without being looked up among valid_types' values")
     # list items: every item is unwrapped and goes through the declared value type, on every return
     from . import coverage as _cov
 
